@@ -40,6 +40,7 @@ class Std(Scenario):
         self.early_pubcomp = g('early_pubcomp', True)
         self.ack_heldback = g('ack_heldback', True)
         self.tick_ties = g('tick_ties', True)
+        self.rx_after_close = g('rx_after_close', False)
         self.closing_enabled = g('closing', True)
         self.closing_reconnect = g('closing_reconnect', True)
         self.drain_horizon = g('drain_horizon', 5000.0)
@@ -154,7 +155,7 @@ class Std(Scenario):
                                 out.append(('settimeout', a, t))
                     if left('disconnect') > 0 and c.close_req is None:
                         out.append(('disconnect', a))
-                if c.open:
+                if c.open or (self.rx_after_close and c.close_req == 'lose' and not c.lost and w.mode == 'async'):
                     if left('dupconnack') > 0:
                         out.append(('dupconnack', a, 0, True))
                     out.extend(self._acks(w, a, c, left))
